@@ -146,8 +146,13 @@ class TaskLoader:
             include_code = file.read()
         scope: Dict[str, Any] = {}
         try:
+            # N.B. The included file is run with a single namespace (as a
+            # regular Python module would be). With separate globals and
+            # locals, functions and comprehensions defined in the included
+            # file would not be able to see the file's own top-level symbols.
             # pylint: disable=exec-used
-            exec(include_code, {}, scope)
+            exec(include_code, scope)
+            scope.pop("__builtins__", None)
         except SyntaxError as ex:
             syntax_err = TaskSyntaxError()
             syntax_err.add_file_context(
